@@ -7,7 +7,12 @@
     (c) counts and byte lengths computed from earlier fields (`Expr`: NLUTS*NELUT, band_depth*blocks,
         ceil(TPXCDLNTH/8), the NBANDS/XBANDS escape),
     (d) big-endian unsigned binary integers of any width (1/2/4 bytes used),
-    (e) nesting (a record is a field; loop items are records; conditional parts may be records).
+    (e) nesting (a record is a field; loop items are records; conditional parts may be records),
+    (f) [TRE extension] text fields of COMPUTED width whose stored value is stripped on BOTH sides (`tstr`: the `'s'` fields of
+        tres/tre_elements.py - `bytes.decode().strip()` / `f'{v:{w}s}'`), counts and lengths that subtract / divide
+        (`NPLN - 1`, `(NPART+1)*NPART/2`, `len(value) - consumed`), numeric readings of text and byte fields (`int(self.X)` on a
+        text or bytes field: `Expr.dec`; `struct.unpack('>I', ..)` / `int.from_bytes(.., 'big')`: `Expr.be`), and conditions on
+        single bits of a big-endian byte field (`existence_mask & 0x..`: `Cond.bit`) or on a decimal reading (`Cond.posDec`).
   One encoder `enc`, one decoder `dec` (lenient, or strict = accepts exactly the conformant byte strings),
   one length function `len`, one acceptance predicate `acc`; all total, structurally recursive, executable.
 
@@ -32,6 +37,9 @@
     seq                      base.py `NITFElement.to_bytes/from_bytes/get_bytes_length` over `_ordering`
     cond                     the `_get_attribute_length` / `_parse_attribute` overrides (image.py, des.py, security.py)
     loop                     base.py `NITFLoop`, `_ItemArrayHeaders`; image.py `ImageBand` LUTD, `MaskSubheader` BMR/TMR
+    tstr / Expr.sub,div,dec,be / Cond.bit,posDec
+                             tres/tre_elements.py `_parse_type`, `_create_encoder`, `TREElement.add_field/add_loop`, `TRELoop` and the
+                             `__init__` bodies of tres/unclass/*.py (translated by translate/tables_tre.py)
 -/
 import SarpyModel.Spec.FieldFmt
 namespace Sarpy.Spec.FieldFmt2
@@ -64,10 +72,30 @@ def natOf : Option Val → Nat
 
 def lstrip (bs : Bytes) : Bytes := bs.dropWhile isSpace
 
+/-- Python `str.strip()` on ASCII text -/
+def strip (bs : Bytes) : Bytes := lstrip (rstrip bs)
+
+/-- big-endian reading of a byte string (defined here because conditions on mask bits need it) -/
+def decBin (bs : Bytes) : Nat := bs.foldl (fun a b => 256 * a + b) 0
+
+/-- decimal reading of a text / bytes value made of ASCII digits (`int(self.X)` on an `'s'` or `'b'` field); anything that is not a
+    digit string counts as 0 (Python raises there: such payloads are refused, see the harness) -/
+def decOf : Option Val → Nat
+  | some (.str s) => (fromDigits s).getD 0
+  | some (.raw s) => (fromDigits s).getD 0
+  | v => natOf v
+
+/-- big-endian reading of a bytes value (`struct.unpack('>I', x)[0]`, `int.from_bytes(x, 'big')`) -/
+def beOf : Option Val → Nat
+  | some (.raw s) => decBin s
+  | v => natOf v
+
 /-- conditions on earlier fields -/
 inductive Cond where
   | strIn (x : Name) (strip : Bool) (consts : List Bytes)   -- text value of x (leading blanks removed if `strip`) is one of consts
   | pos (x : Name)                                          -- numeric value of x is > 0
+  | posDec (x : Name)                                       -- decimal reading of the text / bytes value of x is > 0
+  | bit (x : Name) (mask : Nat)                             -- big-endian reading of the bytes value of x has a bit of mask set
   | not (c : Cond)
   | and (a b : Cond)
 deriving Repr, DecidableEq, Inhabited
@@ -78,12 +106,16 @@ def Cond.eval : Cond → Env → Bool
     | some (.str s) => cs.contains (if strip then lstrip s else s)
     | _ => false
   | .pos x, env => decide (0 < natOf (lookup env x))
+  | .posDec x, env => decide (0 < decOf (lookup env x))
+  | .bit x mask, env => decide (0 < (beOf (lookup env x)) &&& mask)
   | .not c, env => !(c.eval env)
   | .and a b, env => a.eval env && b.eval env
 
 def Cond.vars : Cond → List Name
   | .strIn x _ _ => [x]
   | .pos x => [x]
+  | .posDec x => [x]
+  | .bit x _ => [x]
   | .not c => c.vars
   | .and a b => a.vars ++ b.vars
 
@@ -94,6 +126,10 @@ inductive Expr where
   | mul (a b : Expr)
   | add (a b : Expr)
   | ceilDiv (a : Expr) (d : Nat)          -- ceil(a / d)   (TPXCD: ceil(TPXCDLNTH / 8))
+  | sub (a b : Expr)                      -- max(a - b, 0): `range(n - 1)` is empty for n = 0
+  | div (a : Expr) (d : Nat)              -- floor(a / d)  (RSMDCA: (NPART+1)*NPART/2)
+  | dec (x : Name)                        -- decimal reading of a text / bytes field
+  | be (x : Name)                         -- big-endian reading of a bytes field
   | ite (c : Cond) (a b : Expr)           -- the NBANDS / XBANDS escape
 deriving Repr, DecidableEq, Inhabited
 
@@ -103,6 +139,10 @@ def Expr.eval : Expr → Env → Nat
   | .mul a b, env => a.eval env * b.eval env
   | .add a b, env => a.eval env + b.eval env
   | .ceilDiv a d, env => (a.eval env + (d - 1)) / d
+  | .sub a b, env => a.eval env - b.eval env
+  | .div a d, env => a.eval env / d
+  | .dec x, env => decOf (lookup env x)
+  | .be x, env => beOf (lookup env x)
   | .ite c a b, env => if c.eval env then a.eval env else b.eval env
 
 def Expr.vars : Expr → List Name
@@ -111,12 +151,17 @@ def Expr.vars : Expr → List Name
   | .mul a b => a.vars ++ b.vars
   | .add a b => a.vars ++ b.vars
   | .ceilDiv a _ => a.vars
+  | .sub a b => a.vars ++ b.vars
+  | .div a _ => a.vars
+  | .dec x => [x]
+  | .be x => [x]
   | .ite c a b => c.vars ++ (a.vars ++ b.vars)
 
 /-- format descriptions -/
 inductive Fmt where
   | int (w : Nat)                         -- decimal integer, w characters
   | str (w : Nat)                         -- text, w characters, blank padded
+  | tstr (n : Expr)                       -- TRE text: n characters (computed), blank padded, stored stripped on both sides
   | raw (n : Expr)                        -- n bytes, n computed from earlier fields (constant: `.lit`)
   | bin (w : Nat)                         -- big-endian unsigned integer, w bytes
   | blob (w k : Nat)                      -- w-digit length L; if L > 0: k-digit overflow field and L - k data bytes
@@ -142,7 +187,10 @@ def encBin : Nat → Nat → Bytes
   | 0, _ => []
   | w + 1, n => encBin w (n / 256) ++ [n % 256]
 
-def decBin (bs : Bytes) : Nat := bs.foldl (fun a b => 256 * a + b) 0
+/-! ### TRE text fields -/
+
+/-- ASCII text without leading or trailing blanks, no longer than the field -/
+def acceptTStr (w : Nat) (s : Bytes) : Bool := acceptStr w s && (lstrip s == s)
 
 /-! ### length-prefixed areas -/
 
@@ -214,6 +262,7 @@ def decItems (d : Bytes → Option (Val × Bytes)) : Nat → Bytes → Option (V
 def acc : Fmt → Env → Val → Bool
   | .int w, _, .int v => acceptInt w v
   | .str w, _, .str s => acceptStr w s
+  | .tstr e, env, .str s => acceptTStr (e.eval env) s
   | .raw e, env, .raw s => decide (s.length = e.eval env)
   | .bin w, _, .nat n => decide (n < 256 ^ w)
   | .blob w k, _, v => accBlob w k v
@@ -227,6 +276,7 @@ def acc : Fmt → Env → Val → Bool
 def enc : Fmt → Env → Val → Bytes
   | .int w, _, .int v => encInt w v
   | .str w, _, .str s => encStr w s
+  | .tstr e, env, .str s => encStr (e.eval env) s
   | .raw _, _, .raw s => s
   | .bin w, _, .nat n => encBin w n
   | .blob w k, _, v => encBlob w k v
@@ -238,6 +288,7 @@ def enc : Fmt → Env → Val → Bytes
 def len : Fmt → Env → Val → Nat
   | .int w, _, _ => w
   | .str w, _, _ => w
+  | .tstr e, env, _ => e.eval env
   | .raw e, env, _ => e.eval env
   | .bin w, _, _ => w
   | .blob w k, _, v => lenBlob w k v
@@ -257,6 +308,11 @@ def dec (strict : Bool) : Fmt → Env → Bytes → Option (Val × Bytes)
     if bs.length < w then Option.none else
     chk strict (acceptStr w (decStr (bs.take w)) && encStr w (decStr (bs.take w)) == bs.take w)
       (some (.str (decStr (bs.take w)), bs.drop w))
+  | .tstr e, env, bs =>
+    if bs.length < e.eval env then Option.none else
+    chk strict (acceptTStr (e.eval env) (strip (bs.take (e.eval env))) &&
+        encStr (e.eval env) (strip (bs.take (e.eval env))) == bs.take (e.eval env))
+      (some (.str (strip (bs.take (e.eval env))), bs.drop (e.eval env)))
   | .raw e, env, bs =>
     if bs.length < e.eval env then Option.none else some (.raw (bs.take (e.eval env)), bs.drop (e.eval env))
   | .bin w, _, bs =>
@@ -278,6 +334,7 @@ def dec (strict : Bool) : Fmt → Env → Bytes → Option (Val × Bytes)
 /-- well-formedness: names are fresh in their scope; conditions and computed lengths see earlier names only -/
 def wf : Fmt → List Name → Bool
   | .raw e, sc => e.vars.all (fun x => sc.contains x)
+  | .tstr e, sc => e.vars.all (fun x => sc.contains x)
   | .seq x hd tl, sc => !(sc.contains x) && wf hd sc && wf tl (x :: sc)
   | .cond c f, sc => c.vars.all (fun x => sc.contains x) && wf f sc
   | .loop e item, sc => e.vars.all (fun x => sc.contains x) && wf item sc
